@@ -113,13 +113,13 @@ def units_for(P, kind):
         dict(name=p + '_on_schedule_stop_complete', harness='h_%s_on_schedule_stop_complete' % p, enforce=P + '_cop_on_schedule_stop_complete', replace=[P + '_request_stop_local']),
         # ---- obligations that fail on the current tree (three genuine defects), thorough tier only ----
         # D1: start_io() is also the retry continuation of an operation that found no ring space: it constructs the stop callback again
-        dict(name=p + '_on_schedule_complete_retry', harness='h_%s_on_schedule_complete_retry' % p, enforce=P + '_on_schedule_complete', defines=['VF_RETRY'], tier='thorough', note=KNOWN),
+        dict(name=p + '_on_schedule_complete_retry', harness='h_%s_on_schedule_complete_retry' % p, enforce=P + '_on_schedule_complete', defines=['VF_RETRY'], note=KNOWN),
         # D2: the stop callback exists before the operation's SQE does: a stop request that is already there (or arrives while the operation waits for
         # ring space) queues its ASYNC_CANCEL in front of the SQE it is meant to cancel
-        dict(name=p + '_start_io_early_stop', harness='h_%s_start_io' % p, enforce=P + '_start_io', defines=['VF_EARLY_STOP'], tier='thorough', note=KNOWN),
-        dict(name=p + '_request_stop_local_early', harness='h_%s_request_stop_local' % p, enforce=P + '_request_stop_local', defines=['VF_EARLY_STOP'], tier='thorough', note=KNOWN),
+        dict(name=p + '_start_io_early_stop', harness='h_%s_start_io' % p, enforce=P + '_start_io', defines=['VF_EARLY_STOP'], note=KNOWN),
+        dict(name=p + '_request_stop_local_early', harness='h_%s_request_stop_local' % p, enforce=P + '_request_stop_local', defines=['VF_EARLY_STATE'], note=KNOWN),
         # D3: a transfer that succeeded (res >= 0) is reported as done when a stop request has arrived meanwhile: the byte count is lost
-        dict(name=p + '_on_complete_result', harness='h_%s_on_complete' % p, enforce=oc, defines=['VF_STRICT_RESULT'], tier='thorough', props=['C14'], note=KNOWN),
+        dict(name=p + '_on_complete_result', harness='h_%s_on_complete' % p, enforce=oc, defines=['VF_STRICT_RESULT'], props=['C14'], note=KNOWN),
     ]
     return us
 
